@@ -225,14 +225,13 @@ def run(ctx):
         v = tp[0][5]
         okk = isinstance(v, ast.BinOp) and isinstance(v.op, ast.Sub) and src(v.left) == "pos" and src(v.right) in ("grad_scaling * dd", "dd * grad_scaling")
         ctx.check("R17.3", key, okk, src(v), fi)
-    cge = m.func(CG, "_cg")
-    cgs = m.func(CG, "_static_cg.cg_single_step")
-    for fi in (cge, cgs):
-        rows = collect(fi)
-        fb = pick(rows, "pos", guard_has=["curv <"])
-        key = f"{fi.key}::CG fallback is +c*gradient (c >= 0)"
-        if len(fb) != 1:
-            ctx.und("R17.3", key, f"{len(fb)} statements", fi)
+    from .c15 import fallback_expressions, fallback_step_verdict
+    fx = fallback_expressions(m)
+    for which in ("eager", "compiled"):
+        if which not in fx:
+            ctx.und("R17.3", f"{CG}::{which} CG fallback", "path not recognised", e)
             continue
-        verdict, why = descent_sign(fb[0][5])
-        ctx.check("R17.3", key, verdict, f"{src(fb[0][5])}: {why}", fi)
+        fi, expr = fx[which]
+        verdict, why = fallback_step_verdict(expr)
+        ctx.check("R17.3", f"{fi.key}::CG fallback is +c*gradient with c > 0 (so the Newton step moves along the negative gradient)",
+                  verdict, f"{src(expr)}: {why}", fi)
